@@ -31,6 +31,7 @@ contract(
     props=["C16", "C10"],
     params={"val": Union(UNDEF, Int, NoneT, TrueT, Float, Opaque(lambda ex, n: __import__("pyvc.values", fromlist=["HDict"]).HDict(concrete={}), "dict"))},
     opaque_methods={"poke": Bool},
+    partial_domain="undefined, scalars and mappings only: the str / Sequence / Iterable branches are outside this domain",
     post=["calls('poke') == (1 if isinstance(val, Undefined) else 0)",
           "implies(isinstance(val, Undefined), len(result) == 0)",
           "implies(not isinstance(val, Undefined), len(result) == 1 and result[0] is val)",
